@@ -204,6 +204,19 @@ def end_to_end(which=None, c13=False):
             a.set_pbc(False)
             a.center(vacuum=6)
             fam.append(("defective rocksalt crystallite %d" % k, a[rng.random(len(a)) > 0.25]))
+    if c13:
+        # layered crystals in a fully periodic cell: the layers are bonded with van der Waals radii but not with covalent ones, so the
+        # shortcut must use the radii of the clustering
+        from ase.build import graphene, mx2
+        gr = graphene(size=(4, 4, 1), vacuum=None)
+        cell = np.array(gr.get_cell())
+        cell[2] = [0, 0, 3.35]
+        gr.set_cell(cell)
+        gr.set_pbc(True)
+        fam.insert(0, ("layered: graphene sheets 3.35 A apart", gr))
+        gv = gr.copy()
+        del gv[5]
+        fam.insert(1, ("layered: graphene sheets with a vacancy", gv))
     for name, at in fam:
         for bt in ((0.65, 0.9) if c13 else (0.65,)):
             fails.extend(_e2e_one(name, at, bt, c13))
@@ -219,7 +232,7 @@ def _e2e_one(name, at, bt, c13):
     fails = []
     if True:
         pos0, cell0, pbc0, num0 = at.get_positions().copy(), np.array(at.get_cell()).copy(), at.get_pbc().copy(), at.get_atomic_numbers().copy()
-        for radii in ("covalent", "vdw_covalent"):
+        for radii in (("covalent", "vdw_covalent") + (("vdw",) if name.startswith("layered") else ())):
             try:
                 cl = SBC().get_clusters(at, radii=radii, bond_threshold=bt)
                 cl2 = SBC().get_clusters(at, radii=radii, bond_threshold=bt)
@@ -295,6 +308,45 @@ def unordered_clusters(trials=60):
                 fails.append({"function": "Cluster.get_dimensionality", "numbers": at.get_atomic_numbers().tolist(), "positions": at.get_positions().round(4).tolist(),
                               "cell": [L, L * 1.1, L * 0.9], "pbc": pbc, "indices": idx, "threshold": thr,
                               "observed": "Cluster.get_dimensionality() = %r, get_dimensionality(cluster atoms, radii of these atoms) = %r" % (got, ref)})
+        if len(fails) >= 2:
+            break
+    return fails
+
+
+def random_gases(limit=400):
+    """the statement of C01 on dense random gases without periodicity (many small overlapping regions: the order of merging, overlap
+    resolution and outlier removal matters here); ~30 s"""
+    import matid.geometry as g
+    from ase import Atoms
+    from matid.clustering import SBC
+
+    fails = []
+    for k in range(limit):
+        rng = np.random.default_rng(1000 + k)
+        n = int(rng.integers(25, 50))
+        L = (n * 11.0) ** (1 / 3)
+        at = Atoms(numbers=rng.choice([6, 8, 14, 29], size=n), positions=rng.uniform(0, L, size=(n, 3)), cell=[L, L, L], pbc=False)
+        try:
+            cl = SBC().get_clusters(at, seed=k)
+        except Exception as e:  # noqa
+            fails.append({"structure": "random gas, generator seed %d" % (1000 + k), "observed": "get_clusters raised %s: %s" % (type(e).__name__, e)})
+            continue
+        r = g.get_radii("covalent", at.get_atomic_numbers())
+        seen = set()
+        for c in cl:
+            idx = list(c.indices)
+            bad = None
+            if not idx:
+                bad = "empty cluster"
+            elif len(set(idx)) != len(idx) or seen & set(idx):
+                bad = "duplicate or overlapping indices"
+            elif g.get_dimensionality(at[idx], 0.65, radii=r[idx]) is None:
+                bad = "cluster %s is not one bonded component" % sorted(idx)
+            seen |= set(idx)
+            if bad:
+                fails.append({"structure": "random gas: numpy default_rng(%d), n = integers(25,50), L = (11 n)^(1/3), numbers choice [6,8,14,29], positions uniform(0,L)" % (1000 + k),
+                              "n_atoms": n, "get_clusters_seed": k, "observed": bad})
+                break
         if len(fails) >= 2:
             break
     return fails
